@@ -63,6 +63,9 @@ type Slot struct {
 type Layouts struct {
 	cache map[types.Type][]Slot
 	byStr map[string][]Slot
+	// subst: type arguments of the inlined generic body being executed (set per instruction from the
+	// frame); while it is set nothing is cached, since the layout of T depends on it
+	subst map[*types.TypeParam]types.Type
 }
 
 func NewLayouts() *Layouts {
@@ -70,6 +73,9 @@ func NewLayouts() *Layouts {
 }
 
 func (l *Layouts) Of(t types.Type) []Slot {
+	if len(l.subst) > 0 {
+		return l.compute(t)
+	}
 	if s, ok := l.cache[t]; ok {
 		return s
 	}
@@ -115,6 +121,13 @@ func (l *Layouts) compute(t types.Type) []Slot {
 	case *types.Interface:
 		return []Slot{{K: KI, Role: RTid}, {K: KI, Role: RBlk}, {K: KI, Role: ROff}}
 	case *types.TypeParam:
+		if a, ok := l.subst[u]; ok && a != types.Type(u) {
+			saved := l.subst
+			l.subst = nil // the argument is a type of the caller's world
+			out := l.Of(a)
+			l.subst = saved
+			return out
+		}
 		// a type parameter whose constraint has methods is laid out like an interface value (dynamic
 		// type id + payload), so that method calls on it go through the interface contracts
 		if ci, ok := u.Constraint().Underlying().(*types.Interface); ok && ci.NumMethods() > 0 {
